@@ -33,7 +33,7 @@ ASSUMPTIONS = ['both traces are schedule-independent: ops run to quiescence, '
 HASHSEED_DEPENDENT = True   # connect(namespaces=None) iterates over a set
 SHRINK_LISTS = []
 SUBS = ['c03', 'c04', 'c05', 'c06', 'c11', 'c12', 'c16', 'c09', 'c08',
-        'c02', 'c07', 'c15', 'c19']
+        'c02', 'c07', 'c15', 'c19', 'c14x']
 
 
 def gen(rng, tier):
